@@ -2,9 +2,9 @@ from checks.common import *
 
 SPEC = {
     "translators": ["gen_tracking"],
-    "bins": ["c17"],
-    "model_targets": ["Scanner/TrackingCheck.vo"],
-    "proof_targets": ["Scanner/PrivIterProofs.vo", "Scanner/TrackingProofs.vo"],
+    "bins": ["c17", "c17m"],
+    "model_targets": ["Scanner/TrackingCheck.vo", "Scanner/SnippetsCheck.vo"],
+    "proof_targets": ["Scanner/PrivIterProofs.vo", "Scanner/TrackingProofs.vo", "Scanner/ResultsProofs.vo", "Scanner/SnippetsProofs.vo"],
     "assumptions": [
         "rule conditions are abstracted to a verdict function of (rule id, rule bitmap); the theorems hold for every such function",
         "the order in which emitted code evaluates rules (ascending id, namespace blocks left on a failing global rule) is modelled by hand and tied to the code by K",
@@ -19,26 +19,50 @@ RULE = ("rule sets with 1-4 namespaces, 0-25 rules each, random global/private f
         "distinct by rule-set structure.")
 
 
+RULE_M = (" Match data: 1-4 literal patterns over buffers of 8-64 bytes built from the patterns' own tokens so that matches are close together; "
+          "contiguous scans and block scans (1-24 byte blocks, gaps, arbitrary first base, sometimes delivered in reverse order); match_context_size in "
+          "{0,1,2,3,4,5,8,16,1000}; observed per match: range, data(), data_with_context(). Non-trivial: >= 2 matches.")
+
+
 def classify(case):
     return "C17:iterator-contract:" + ("block" if case.get("block_mode") else "contiguous")
 
 
+def classify_m(case):
+    return "C17:match-data:" + ("contiguous" if case.get("single") else "block") + ":ctx=" + str(case.get("context_size"))
+
+
+def merge(a, b):
+    out = dict(a)
+    for k in ("evaluations", "distinct_nontrivial", "traces_validated_against_impl", "k_disagreements", "s_violations"):
+        out[k] = a.get(k, 0) + b.get(k, 0)
+    out["samples"] = (a.get("samples") or [])[:2] + (b.get("samples") or [])[:2]
+    out["distribution"] = {"iterators": a.get("distribution"), "match_data": b.get("distribution")}
+    out["broken"] = a.get("broken", []) + b.get("broken", [])
+    out["violations"] = a.get("violations", []) + b.get("violations", [])
+    return out
+
+
 def run_k(run, tier, seed, drv):
     n = 600 if tier == "quick" else 12000
-    info = standard_k(run, drv, "C17", "c17", ["--seed", seed, "--n", n], "K_C17_tracking", classify)
-    info["rule"] = RULE
+    a = standard_k(run, drv, "C17", "c17", ["--seed", seed, "--n", n], "K_C17_tracking", classify)
+    m = 500 if tier == "quick" else 10000
+    b = standard_k(run, drv, "C17m", "c17m", ["--seed", seed, "--n", m], "K_C17_snippets", classify_m)
+    info = merge(a, b)
+    info["rule"] = RULE + RULE_M
     return info
 
 MANIFEST = {
     "level_text": ("Machine-checked proof (Coq) that, for every rule list, every verdict function and every include_private "
                    "setting, the MatchingRules/NonMatchingRules/Patterns iterators announce exactly the number of items "
                    "they still yield at every step, never underflow, hide private items unless asked, and that matching and "
-                   "non-matching rules partition the rule ids. The iterator length formulas and the rule_no_match call policy "
+                   "non-matching rules partition the rule ids; and that every match is reported with exactly the requested context clipped to the data "
+                   "(contiguous) or to its own block (block mode, any list of disjoint blocks), with the block's bytes at that range. The iterator length formulas and the rule_no_match call policy "
                    "are regenerated from the Rust source on every run; the hand-written tracking model is compared with the "
                    "implementation's traces on generated rule sets (contiguous and block mode)."),
     "level_note": ("Trusted: Coq kernel, the translator gen_tracking.py, the harness and the hand-written model of "
                    "track_rule_match/track_rule_no_match/finish_rule evaluation order (tied by differential traces). "
-                   "Match data/context-window faithfulness is covered by C01/C14 checks, not here."),
+                   "Match data/context windows: get_with_context and the block scanner's snippet retention are modelled by hand and tied by differential cases; blocks are assumed pairwise disjoint in the block-mode theorem."),
     "technique": "Coq proof over a model with source-generated definitions + differential correspondence (vm_compute)",
     "design_ref": "DESIGN.md section 4, C17",
 }
